@@ -371,6 +371,14 @@ async def _execute(cfg, ops):
             else:
                 events.append({"op": line, "kind": "done", "arg": arg, "t": t, "id": None, "outcome": o, "res": "noop",
                                "n": len(gates[arg]), "waiters": [], "impl": f"noop n={len(gates[arg])} t={CLOCK.ticks()}{wtag}"})
+        elif w[0] in ("set", "del") and len(w) == 2:
+            # capacity stage (harness/overlap14.py): unrelated keys written / deleted straight through the cache
+            if w[0] == "set":
+                await cache.set("filler:" + w[1], 1)
+            else:
+                await cache.delete("filler:" + w[1])
+            await _quiesce()
+            events.append({"op": line, "kind": "raw", "t": t, "impl": "ok"})
         else:
             raise HarnessError(f"bad op {line!r}")
     # drain what is still in flight (not part of the history) so that the loop closes cleanly
@@ -490,7 +498,7 @@ def oracle(cfg, events):
         problems.append((i, sig, text))
 
     for i, ev in enumerate(events):
-        if ev["kind"] == "adv":
+        if ev["kind"] in ("adv", "raw"):
             continue
         arg = ev["arg"]
         t = ev["t"]
